@@ -488,10 +488,14 @@ def _build_damp(d, w, vector):
 
         dx = real_t(1.0 / shape[-1])
         # half of the cases: a different domain origin per axis (e.g. an axis centred about 0)
+        # (drawn from a stream that depends on the shape only, not on VERIF_SEED: the origin is baked into the generated code)
+        from .. import util as _util
+
+        orng = _util.rng_for(0, "damp-origin", tuple(shape), w, d, vector)
         origin = None
-        if rng.random() < 0.5:
-            origin = [0.0] + [float(o) for o in rng.choice([-0.5 * shape[0] * float(dx), -3.2, 1.7, 0.25], size=d - 1)]
-            rng.shuffle(origin)
+        if orng.random() < 0.5:
+            origin = [0.0] + [float(o) for o in orng.choice([-0.5 * shape[0] * float(dx), -3.2, 1.7, 0.25], size=d - 1)]
+            orng.shuffle(origin)
         g = _coords(shape, float(dx), real_t, origin)
         kw = dict(width=w, dx=dx, x_grid_field=g[0], y_grid_field=g[1], real_t=real_t, num_threads=num_threads)
         if d == 3:
